@@ -105,6 +105,18 @@ def banner_software(peer):
     return None if b is None else b.software
 
 
+def general_levels(peer):
+    """Coq literal of the levelled findings of the general section, from the banner text itself (not from the tool's output)."""
+    b = peer.get('banner')
+    if b is None:
+        return '[]'
+    import re as _re
+    m = _re.match(r'^SSH-(\d)\.', b)
+    ssh1 = bool(m) and m.group(1) == '1'
+    nonpr = any(not (32 <= ord(ch) <= 126) for ch in b)
+    return '(general_levels %s %s)' % ('true' if ssh1 else 'false', 'true' if nonpr else 'false')
+
+
 def coq_peer(peer):
     av = availability(peer)
     sw = 'None' if av is None else '(Some {| sw_product := %s; sw_available := avail_table %s |})' % (cstr(av[0]), clist(av[1], lambda x: cpair(cstr(x[0]), cbool(x[1]))))
@@ -112,8 +124,8 @@ def coq_peer(peer):
     dh = clist((peer.get('dh') or {}).items(), lambda kv: cpair(cstr(kv[0]), cz(kv[1])))
     k = '{| kl_kex := %s; kl_key := %s; kl_enc := %s; kl_mac := %s; kl_enc_c := %s; kl_mac_c := %s; kl_comp := %s |}' % (
         cstrs(peer['kex']), cstrs(peer['key']), cstrs(peer['enc']), cstrs(peer['mac']), cstrs(peer.get('enc_c', peer['enc'])), cstrs(peer.get('mac_c', peer['mac'])), cstrs(peer.get('comp', ['none'])))
-    return '{| pr_client_audit := %s; pr_banner_software := %s; pr_software := %s; pr_k := %s; pr_hostkeys := %s; pr_dh := %s; pr_rate_notes := %s |}' % (
-        cbool(bool(peer.get('client_audit'))), copt(banner_software(peer), cstr), sw, k, hk, dh, cstr(peer.get('rate_notes', '')))
+    return '{| pr_client_audit := %s; pr_banner_software := %s; pr_software := %s; pr_k := %s; pr_hostkeys := %s; pr_dh := %s; pr_rate_notes := %s; pr_general := %s |}' % (
+        cbool(bool(peer.get('client_audit'))), copt(banner_software(peer), cstr), sw, k, hk, dh, cstr(peer.get('rate_notes', '')), general_levels(peer))
 
 
 def coq_items(algs):
@@ -191,7 +203,7 @@ class Gen:
         r = self.rng
         return r.choice(['SSH-2.0-OpenSSH_8.9', 'SSH-2.0-OpenSSH_7.4', 'SSH-2.0-OpenSSH_6.6.1p1 Ubuntu-2ubuntu2', 'SSH-2.0-OpenSSH_9.9', 'SSH-2.0-OpenSSH_10.0',
                          'SSH-2.0-dropbear_2020.81', 'SSH-2.0-dropbear_2014.66', 'SSH-2.0-libssh_0.10.6', 'SSH-2.0-libssh-0.7.0', 'SSH-2.0-tinyssh_noversion',
-                         'SSH-2.0-PuTTY_Release_0.80', 'SSH-2.0-Cisco-1.25', 'SSH-2.0-SomethingElse_1.0', 'SSH-2.0-OpenSSH_3.9p1', 'SSH-1.99-OpenSSH_5.3', None])
+                         'SSH-2.0-PuTTY_Release_0.80', 'SSH-2.0-Cisco-1.25', 'SSH-2.0-SomethingElse_1.0', 'SSH-2.0-OpenSSH_3.9p1', 'SSH-1.99-OpenSSH_5.3', 'SSH-1.5-OpenSSH_2.3.0', 'SSH-2.0-OpenSSH_8.9 caf\u00e9', 'SSH-1.99-dropbear_0.52 \x07', None])
 
     def peer(self, terrapin=None):
         r = self.rng
